@@ -25,28 +25,28 @@ CHECKS = {
     'C13': {
         'engine': 'simdev',
         'technique': 'deterministic simulation: seeded polling schedules over an injected millis() counter, lock-step reference clock model, ddmin replay',
-        'text': 'Seeded search over polling schedules (gaps 1..64536 ms and stalls beyond), start phases, 2^16/2^32 counter wrap, user sets (same value, sentinel), reboots with a durable RTC; every reading of the real SystemClockLoop is compared with the interval-anchor reference clock T+floor((m-m0)/1000). Sampling, not enumeration: a clean run is evidence, not proof.',
+        'text': 'Seeded search over polling schedules (gaps 1..64536 ms and stalls beyond), start phases, 2^16/2^32 counter wrap, user sets (same value, sentinel), reboots with a durable RTC; every reading of the real SystemClockLoop is compared with the interval-anchor reference clock T+floor((m-m0)/1000). The quick tier is sampling; the thorough tier adds the exhaustive single-gap product (every start phase x every gap) and a carried-remainder family (`exhaustive_phase_gap_sweep` in the evidence). A clean run is evidence, not proof.',
         'note': 'Trusted: the host shim (Print/pgmspace/AceCommon stubs), clang, the A.1 model in sim/clock.h. unsigned long is 64-bit on this host; only the low 16 bits matter to getNow() and they are fed exactly.',
         'design': '§5.C13, Appendix A.1',
     },
     'C14': {
         'engine': 'simdev',
         'technique': 'deterministic simulation with fault injection: seeded loop() schedules x scripted reference-clock faults, lock-step spec state machine + control clock, bounded liveness after faults stop',
-        'text': 'Seeded search over loop() schedules (dense, sparse, jumps to deadlines +/-2 ms) x per-request reference-clock faults (lost, invalid, late, jump, same value, instant, stale datagram, ready-at-timeout race) x 10x6x7 (sync, initial, time-out) configurations (sync 1..65535 s incl. 1, 2, 3, odd values; time-out 0..65535 ms) x reference==backup / distinct / absent, reboots; the real SystemClockLoop is checked call by call against the A.2 spec machine and a control clock, then a fault-free drain must reach a successful sync within the back-off bound.',
-        'note': 'Trusted: shim, scripted SimRefClock/SimRtc stubs, the A.2 model. loop() sees the unwrapped 64-bit counter (no 32-bit multilib here); a defect that needs 32-bit unsigned long arithmetic is not observable.',
+        'text': 'Seeded search over loop() schedules (dense, sparse, jumps to deadlines +/-2 ms) x per-request reference-clock faults (lost, invalid, late, jump, same value, instant, stale datagram, ready-at-timeout race) x 10x6x7 (sync, initial, time-out) configurations (sync 1..65535 s incl. 1, 2, 3, odd values; time-out 0..65535 ms) x reference==backup / distinct / absent, reboots; the real SystemClockLoop is checked call by call against the A.2 spec machine and a control clock, then a fault-free drain must reach a successful sync within one largest period (+ time-out) of polled time. The thorough tier adds a bounded exhaustive enumeration of op sequences (depth 6 / 7).',
+        'note': 'Trusted: shim, scripted SimRefClock/SimRtc stubs, the A.2 model. Every schedule runs twice: `plain` (64-bit unsigned long, unwrapped counter) and `plain32` (the four clock headers compiled with `long` read as `int`, counter wraps at 2^32). plain32 is a host stand-in for the target, not the target.',
         'design': '§5.C14, Appendix A.2',
     },
     'C08': {
         'engine': 'simdev',
         'technique': 'deterministic simulation: seeded interleavings of several clients over shared processors and evicting manager caches, fresh-processor / pristine-process reference, ddmin replay; exhaustive ordered-pair sweep of cached-year states; Python ZoneSpecifier histories',
-        'text': 'Seeded search over call histories: 2-6 TimeZone clients of every binding kind share 1-2 processors per database or compete for ZoneManager caches of size 1..4; queries of all kinds with in-range, boundary and out-of-range / sentinel arguments, failing queries repeated and interleaved; every answer is compared with two freshly constructed processors in differently poisoned storage. Coverage of (binding, cache state, query, argument class) tuples and of ordered cached-year pairs is measured. Sampling, not the exhaustive 52x52 product per zone.',
+        'text': 'Seeded search over call histories: 2-6 TimeZone clients of every binding kind share 1-2 processors per database or compete for ZoneManager caches of size 1..4; queries of all kinds with in-range, boundary and out-of-range / sentinel arguments, failing queries repeated and interleaved; every answer is compared with two freshly constructed processors in differently poisoned storage. Coverage of (binding, cache state, query, argument class) tuples and of ordered cached-year pairs is measured. Seeded sampling plus, in both tiers, an exhaustive walk of every ordered pair of 223 cached-year states per shipped zone (`sweep08`), reported separately; clients are also created by name through the device\'s one line buffer and may keep ZonedDateTime values.',
         'note': 'Trusted: shim, clang, that a processor constructed with its ZoneInfo is "fresh". Crashes that need no history are noted for C09, not reported here. The Python ZoneSpecifier half is a separate engine (pysim) run by the same command.',
         'design': '§5.C08, Appendix A.3',
     },
     'C09': {
         'engine': 'simdev',
         'technique': 'deterministic simulation with fault injection under ASan+UBSan: whole-device call histories (repeated / interleaved failing queries, reboots, clock faults, torn console lines) with error-persistence and pool monitors; a second seeded simulator under MemorySanitizer; pool-bound sweep over compiler-generated zones',
-        'text': 'Decides the history-and-repetition half of C09: seeded whole-device runs (all tz query kinds incl. INT32 extremes, sentinel, invalid components, out-of-range years repeated 1-3 times and interleaved with valid ones; save/reboot/restore; SystemClockLoop with a faulty reference; queries at the clock\'s current time) in the ASan+UBSan build. Any sanitizer report is attributed by source location; errors must stay errors on every repeat; extended pool high-water < transitionBufSize and < 8; basic dropped-transition counter (guarded hook) stays 0. The "for ALL argument values / every generated zone" half is an input sweep and is NOT decided; no-history UB met on the way is still reported.',
+        'text': 'Decides the history-and-repetition half of C09: seeded whole-device runs (all tz query kinds incl. INT32 extremes, sentinel, invalid components, out-of-range years repeated 0-3 times and then re-asked after a valid neighbouring-year query; console lines cut short or garbled; save/reboot/restore; SystemClockLoop with a faulty reference; queries at the clock\'s current time) in the ASan+UBSan build. Any sanitizer report is attributed by source location; errors must stay errors on every repeat; extended pool high-water < transitionBufSize and < 8; basic dropped-transition counter (guarded hook) stays 0. Two side stages run first: `genm3` sweeps the pool bound over every zone the tree\'s own compiler generates from the reconstructed + synthetic source, `msanprobe` runs a second, standard-library-free seeded simulator under MemorySanitizer (values handed out without having been written). The "for ALL argument values" half and generated zones of arbitrary sources are NOT decided; no-history UB met on the way is still reported.',
         'note': 'Trusted: shim, sanitizer runtimes, the generator\'s knowledge of which arguments are out of range (years <= startYear-3 or >= untilYear+2, sentinel, components the library itself defines invalid). Date -> epoch-seconds conversions of dates outside 1932..2067 are not exercised (input-domain half). UBSan reports a location once per process.',
         'design': '§5.C09',
     },
@@ -54,14 +54,14 @@ CHECKS = {
         'engine': 'simdev',
         'technique': 'deterministic simulation with crash/restart: save to a durable store, reboot with newly drawn managers / cache sizes / registries, restore; catalogue oracle',
         'text': 'Seeded search over save -> (history, reboot, different cache size, different registry that does or does not contain the id) -> restore sequences for all five zone kinds plus manual/UTC/error; restored value must equal and answer like the one the same manager creates directly, manual offsets must round-trip and always read std+dst, absent ids must give the error zone, and operator== must agree with the catalogue for every pair of live clients after every step.',
-        'note': 'Trusted: shim, the simulator\'s catalogue (zone identity = ZoneInfo object, kind = getType()). Nothing is torn: the saved form is 5 bytes written whole, so the restart adds configuration diversity rather than new nondeterminism (DESIGN §5.C16 caveat). Crashes inside plain queries are left to C08/C09.',
+        'note': 'Trusted: shim, the simulator\'s catalogue (zone identity = ZoneInfo object, kind = getType()). Nothing is torn in this profile: SAVE copies the TimeZoneData object\'s bytes (what EEPROM.put() does) and RESTORE copies them back, so the restart adds configuration diversity rather than new nondeterminism (DESIGN §5.C16 caveat). Crashes inside plain queries are left to C08/C09.',
         'design': '§5.C16',
     },
     'C20': {
         'engine': 'detcompile',
         'technique': 'deterministic simulation of the compiler\'s environment: tzcompiler.py re-run under seeded perturbations (hash seed, jumping clock, shuffled directory listings, pid, random, TZ, locale, umask, cwd, environment variables, stdio kind, stale outputs, an earlier compilation of another source by the same user) and byte comparison of all outputs',
-        'text': 'Decides clause 1 only ("compiling the same source twice produces identical files"): the real tzcompiler.py is run in fresh interpreters over a TZ source reconstructed from the zonedbx tables, for scope x language x action-set x year-range configurations, 6 (quick) / 48 (thorough) seed-drawn environments each; every emitted file must equal the unperturbed control byte for byte (reason lists inside one comment compared as multisets). A difference is reported with the perturbation minimised to the dimensions that matter. Clauses 2-6 are relations between artifacts of one execution: not decided.',
-        'note': 'Trusted: the perturbation shim (sitecustomize.py) really intercepts time/datetime/os.listdir/os.scandir/os.getpid/random; the reconstructed source stands in for the original TZ release.',
+        'text': 'Decides clause 1 only ("compiling the same source twice produces identical files"): the real tzcompiler.py is run in fresh interpreters over a TZ source reconstructed from the zonedbx tables, for scope x language x action-set x year-range configurations, 7 configurations x 8 runs (quick) / 13 x 160 (thorough); run 0 of each configuration is the unperturbed control and every other run must equal it byte for byte (reason lists inside one comment compared as multisets). A difference is reported with the perturbation minimised to the dimensions that matter. Clauses 2-6 are relations between artifacts of one execution: not decided.',
+        'note': 'Trusted: the perturbation shim (sitecustomize.py) really intercepts time/datetime (wall clock only; monotonic clocks keep running), os.listdir/os.scandir, os.getpid, random, host and user names, the CPU count and the completion order of pools; the reconstructed source stands in for the original TZ release.',
         'design': '§5.C20',
     },
 }
@@ -103,7 +103,11 @@ def main():
             {'name': 'pysim', 'path': 'pysim/', 'serves_properties': ['C08'],
              'kind_free_text': 'Python: seeded call histories on long-lived ZoneSpecifier instances vs fresh instances'},
             {'name': 'detcompile', 'path': 'detcompile/', 'serves_properties': ['C20'],
-             'kind_free_text': 'Python: tzcompiler.py re-run under seeded environment perturbations (hash seed, clock, listing order, cwd, locale)'},
+             'kind_free_text': 'Python: tzcompiler.py re-run under seeded environment perturbations (hash seed, clock, listing order, cwd, locale, environment variables, stdio kind, CPU count, stale outputs, an earlier compilation of another source)'},
+            {'name': 'genm3', 'path': 'genm3/', 'serves_properties': ['C09'],
+             'kind_free_text': 'C++ tool built per run: the real processors over every zone generated by the tree\'s own tzcompiler.py, pool high-water vs recorded size (ASan+UBSan)'},
+            {'name': 'msanprobe', 'path': 'msan/', 'serves_properties': ['C09'],
+             'kind_free_text': 'C++ seeded simulator without the standard library, built per run at -O0 with MemorySanitizer: TimeZone / ZoneManager call histories, every returned value consumed'},
             {'name': 'orch', 'path': 'orch/', 'serves_properties': ['C08', 'C09', 'C13', 'C14', 'C16', 'C20'],
              'kind_free_text': 'Python orchestrator: content-addressed builds from the working tree, parallel batches, crash triage, ddmin, replay files, known findings, evidence'},
         ],
